@@ -267,3 +267,72 @@ package contracts
 //@   assigns post(buf), consumed(r)
 //@   ensures err == nil ==> n == len(buf) && consumed(r) == old(consumed(r)) ++ post(buf)
 //@   ensures err != nil ==> n < len(buf) || len(buf) == 0
+
+//@ -- crypto/sha256, hash, io.Writer, utf-8 ---------------------------------------------------------------
+//@ pure func sha256sum(b seq[byte]) seq[byte]
+//@ axiom [sha256-len] forall b seq[byte] :: len(sha256sum(b)) == 32
+//@ axiom [hex-of-bytes-len] forall b seq[byte] :: len(fmtxs("", b)) == 2 * len(b)
+//@ axiom [utf8-two-bytes] forall c int :: len(utf8enc(c)) >= 1 && (c >= 128 ==> utf8enc(c)[0] > 127)
+//@ ghostfield iface.written seq[byte]
+//@ ghostfield iface.isSha256 bool
+
+//@ func sha256.New :: -> h
+//@   trusted
+//@   pure
+//@   ensures h != nil && isSha256(h) && len(written(h)) == 0
+
+//@ func io.Writer.Write :: w, p -> n, err
+//@   trusted
+//@   assigns written(w)
+//@   ensures err == nil ==> n == len(p) && written(w) == old(written(w)) ++ p
+//@   ensures isSha256(w) ==> err == nil
+
+//@ func hash.Hash.Sum :: h, b -> out
+//@   trusted
+//@   pure
+//@   ensures isSha256(h) ==> out == b ++ sha256sum(written(h))
+
+//@ func io.WriteString :: w, s -> n, err
+//@   trusted
+//@   pure
+//@   requires [writer-non-nil] w != nil
+
+//@ -- time / log / request context / prometheus ------------------------------------------------------------
+//@ pure func durationOf(s string) time.Duration
+//@ func time.ParseDuration :: s -> d, err
+//@   trusted
+//@   pure
+//@   ensures err == nil ==> d == durationOf(s)
+
+//@ -- Fatalf logs and exits the process: it does not return
+//@ func log.(*Logger).Fatalf :: l, format, v
+//@   trusted
+//@   pure
+//@   ensures false
+
+//@ ghostfield http.Request.reqCtx context.Context
+//@ func http.(*Request).Context :: r -> ctx
+//@   trusted
+//@   pure
+//@   requires r != nil
+//@   ensures ctx == r.reqCtx
+
+//@ ghostfield iface.hasMeta bool
+//@ -- what an http.Handler was handed (trace of the last ServeHTTP call made by fingerproxy code)
+//@ ghost var handlerSawTLS bool
+//@ ghost var handlerCalls int
+//@ func http.Handler.ServeHTTP :: h, w, r
+//@   trusted
+//@   assigns handlerSawTLS, handlerCalls
+//@   ensures handlerSawTLS == (r.TLS != nil) && handlerCalls == old(handlerCalls) + 1
+
+//@ func http.(*ServeMux).ServeHTTP :: mux, w, r
+//@   trusted
+//@   assigns handlerSawTLS, handlerCalls
+//@   ensures handlerSawTLS == (r.TLS != nil) && handlerCalls == old(handlerCalls) + 1
+
+//@ func prometheus.Observer.Observe :: o, v
+//@   trusted
+//@   pure
+
+//@ axiom [default-transport-is-http-transport] isptr(http.Transport, http.DefaultTransport) && unboxptr(http.Transport, http.DefaultTransport) != nil
